@@ -249,6 +249,14 @@ var azFills = []func(n int) []byte{
 		return b
 	},
 	func(n int) []byte { return []byte(Filler("Ab1. ,x:9@!\r\nZ", n)) },
+	// payloads that need heavy bit stuffing (long runs of equal bits)
+	func(n int) []byte { return make([]byte, n) },
+	func(n int) []byte { return []byte(strings.Repeat("\xff", n)) },
+	func(n int) []byte {
+		b := make([]byte, n)
+		copy(b, "ACME-0042")
+		return b
+	},
 }
 
 func enumAztec(c *core.Ctx, classLen int, thorough bool) {
@@ -293,7 +301,7 @@ func enumAztec(c *core.Ctx, classLen int, thorough bool) {
 	for _, pct := range pcts {
 		for layers := -5; layers <= 33; layers++ {
 			for fi, fill := range azFills {
-				if !thorough && fi == 3 {
+				if !thorough && (fi == 3 || fi == 6) {
 					continue
 				}
 				if layers < -4 || layers > 32 {
